@@ -1,14 +1,16 @@
 CONSTANTS
     MinN = 2
-    MaxN = 4
+    MaxN = 3
     P = 2
-    Vals = {0, 1}
+    Vals = {0, 1, 2}
     Targets = {0, 1, 2}
+    TopTargets = {0, 1}
     Kinds = {"mse", "gini", "entropy", "error"}
     Depths = {0, 1, 3}
     Msls = {1, 2}
-    Msss = {0, 2, 3}
-    ReplayMod = 60
+    Msss = {0, 3}
+    TieOrders = "all"
+    ReplayMod = 40
 SPECIFICATION Spec
 INVARIANT TypeOK
 INVARIANT RevalidationNeverFails
